@@ -1,5 +1,5 @@
 (** Proofs about Model.Lookup / Model.Glob (property C03). *)
-From Coq Require Import String List NArith Bool Lia PeanoNat Sorting.Sorted.
+From Coq Require Import String List NArith Bool Lia PeanoNat Sorting.Sorted Sorting.Permutation.
 From Fabio Require Import Lib.Bytes Model.Glob Model.Lookup.
 Import ListNotations.
 Local Open Scope N_scope.
@@ -98,39 +98,42 @@ Qed.
 (* ------------------------------------------------------------------ *)
 (** * The insertion sort *)
 Section SortFacts.
-  Context {A : Type} (key : A -> str).
-  Definition kge (a b : A) : Prop := str_ltb (key a) (key b) = false.
+  Context {A : Type} (ltb : A -> A -> bool).
+  Hypothesis ltb_irrefl : forall a, ltb a a = false.
+  Hypothesis ltb_asym : forall a b, ltb a b = true -> ltb b a = false.
+  Hypothesis ltb_ge_trans : forall a b c, ltb a b = false -> ltb b c = false -> ltb a c = false.
+  Definition kge (a b : A) : Prop := ltb a b = false.
 
-  Lemma insert_desc_in x y l : In y (insert_desc key x l) <-> y = x \/ In y l.
+  Lemma insert_desc_in x y l : In y (insert_desc ltb x l) <-> y = x \/ In y l.
   Proof.
     induction l as [|z l IH]; cbn [insert_desc In].
     - split; [intros [<- | []]; now left | intros [-> | []]; now left].
-    - destruct (str_ltb (key x) (key z)); cbn [In]; [rewrite IH|]; intuition congruence.
+    - destruct (ltb x z); cbn [In]; [rewrite IH|]; intuition congruence.
   Qed.
 
-  Lemma sort_desc_in y l : In y (sort_desc key l) <-> In y l.
+  Lemma sort_desc_in y l : In y (sort_desc ltb l) <-> In y l.
   Proof.
     induction l as [|z l IH]; cbn [sort_desc fold_right In]; [tauto|].
-    fold (sort_desc key l). rewrite insert_desc_in, IH. intuition congruence.
+    fold (sort_desc ltb l). rewrite insert_desc_in, IH. intuition congruence.
   Qed.
 
   Lemma insert_desc_sorted x l :
-    StronglySorted kge l -> StronglySorted kge (insert_desc key x l).
+    StronglySorted kge l -> StronglySorted kge (insert_desc ltb x l).
   Proof.
     induction l as [|z l IH]; intros Hs; cbn [insert_desc].
     - constructor; constructor.
     - inversion Hs as [|? ? Hs' Hall]; subst.
-      destruct (str_ltb (key x) (key z)) eqn:E.
+      destruct (ltb x z) eqn:E.
       + constructor; [now apply IH|].
         apply Forall_forall. intros y Hy. apply insert_desc_in in Hy as [-> | Hy].
-        * unfold kge. now apply str_ltb_asym.
+        * unfold kge. now apply ltb_asym.
         * rewrite Forall_forall in Hall. now apply Hall.
       + constructor; [exact Hs|]. constructor; [exact E|].
         rewrite Forall_forall in Hall |- *. intros y Hy.
-        unfold kge in *. eapply str_ge_trans; [exact E | now apply Hall].
+        unfold kge in *. eapply ltb_ge_trans; [exact E | now apply Hall].
   Qed.
 
-  Lemma sort_desc_sorted l : StronglySorted kge (sort_desc key l).
+  Lemma sort_desc_sorted l : StronglySorted kge (sort_desc ltb l).
   Proof.
     induction l as [|z l IH]; cbn [sort_desc fold_right]; [constructor|].
     now apply insert_desc_sorted.
@@ -144,11 +147,118 @@ Section SortFacts.
     intros Hs Hf Hin Hr'. inversion Hs as [|? ? Hs' Hall]; subst.
     destruct (f a) eqn:E.
     - injection Hf as <-. destruct Hin as [<- | Hin].
-      + unfold kge. apply str_ltb_irrefl.
+      + unfold kge. apply ltb_irrefl.
       + rewrite Forall_forall in Hall. now apply Hall.
     - destruct Hin as [<- | Hin]; [congruence|]. now apply IH.
   Qed.
 End SortFacts.
+
+Lemma sorted_filter {A} (R : A -> A -> Prop) (f : A -> bool) l :
+  StronglySorted R l -> StronglySorted R (filter f l).
+Proof.
+  induction 1 as [|a l Hs IH Hall]; cbn [filter]; [constructor|].
+  destruct (f a); [|exact IH]. constructor; [exact IH|].
+  rewrite Forall_forall in Hall |- *. intros y Hy. apply filter_In in Hy as [Hy _]. now apply Hall.
+Qed.
+
+(* the two orders used: plain byte order (hosts) and Routes.Less (paths) *)
+Lemma str_ge_antisym a b : str_ltb a b = false -> str_ltb b a = false -> a = b.
+Proof.
+  rewrite !str_ltb_false_iff. rewrite (str_cmp_antisym a b).
+  destruct (str_cmp a b) eqn:E; cbn; try congruence. intros _ _. now apply str_cmp_eq.
+Qed.
+
+Lemma route_ltb_irrefl a : route_ltb a a = false.
+Proof. unfold route_ltb. rewrite beq_refl. apply str_ltb_irrefl. Qed.
+
+Lemma beq_sym a b : beq a b = beq b a.
+Proof.
+  destruct (beq a b) eqn:E.
+  - apply beq_eq in E. subst. symmetry. apply beq_refl.
+  - symmetry. apply beq_neq. apply beq_neq in E. congruence.
+Qed.
+
+Lemma route_ltb_asym a b : route_ltb a b = true -> route_ltb b a = false.
+Proof.
+  unfold route_ltb. rewrite (beq_sym (lower (fst b))).
+  destruct (beq (lower (fst a)) (lower (fst b))); apply str_ltb_asym.
+Qed.
+
+Lemma route_ltb_ge_trans a b c :
+  route_ltb a b = false -> route_ltb b c = false -> route_ltb a c = false.
+Proof.
+  unfold route_ltb.
+  set (la := lower (fst a)). set (lb := lower (fst b)). set (lc := lower (fst c)).
+  destruct (beq la lb) eqn:Eab; destruct (beq lb lc) eqn:Ebc; intros H1 H2.
+  - apply beq_eq in Eab. apply beq_eq in Ebc. rewrite Eab, Ebc, beq_refl.
+    eapply str_ge_trans; eassumption.
+  - apply beq_eq in Eab. rewrite Eab, Ebc. exact H2.
+  - apply beq_eq in Ebc. rewrite <- Ebc, Eab. exact H1.
+  - pose proof (str_ge_trans _ _ _ H1 H2) as H3.
+    destruct (beq la lc) eqn:Eac; [|exact H3].
+    exfalso. apply beq_eq in Eac. rewrite <- Eac in H2.
+    apply beq_neq in Eab. apply Eab. now apply str_ge_antisym.
+Qed.
+
+
+(* the host order of sortHostsReverseHostPort (since cf1c479) *)
+Lemma host_ltb_irrefl a : host_ltb a a = false.
+Proof. unfold host_ltb. rewrite beq_refl. apply str_ltb_irrefl. Qed.
+
+Lemma host_ltb_asym a b : host_ltb a b = true -> host_ltb b a = false.
+Proof.
+  unfold host_ltb. rewrite (beq_sym (reverse_host_port b)).
+  destruct (beq (reverse_host_port a) (reverse_host_port b)); apply str_ltb_asym.
+Qed.
+
+Lemma host_ltb_ge_trans a b c :
+  host_ltb a b = false -> host_ltb b c = false -> host_ltb a c = false.
+Proof.
+  unfold host_ltb.
+  set (la := reverse_host_port a). set (lb := reverse_host_port b). set (lc := reverse_host_port c).
+  destruct (beq la lb) eqn:Eab; destruct (beq lb lc) eqn:Ebc; intros H1 H2.
+  - apply beq_eq in Eab. apply beq_eq in Ebc. rewrite Eab, Ebc, beq_refl.
+    eapply str_ge_trans; eassumption.
+  - apply beq_eq in Eab. rewrite Eab, Ebc. exact H2.
+  - apply beq_eq in Ebc. rewrite <- Ebc, Eab. exact H1.
+  - pose proof (str_ge_trans _ _ _ H1 H2) as H3.
+    destruct (beq la lc) eqn:Eac; [|exact H3].
+    exfalso. apply beq_eq in Eac. rewrite <- Eac in H2.
+    apply beq_neq in Eab. apply Eab. now apply str_ge_antisym.
+Qed.
+
+(* sorting and the exact-first pass only permute *)
+Lemma insert_desc_perm {A} (ltb : A -> A -> bool) x l : Permutation (insert_desc ltb x l) (x :: l).
+Proof.
+  induction l as [|y l IH]; cbn [insert_desc]; [apply Permutation_refl|].
+  destruct (ltb x y); [|apply Permutation_refl].
+  eapply Permutation_trans; [apply perm_skip; exact IH | apply perm_swap].
+Qed.
+
+Lemma sort_desc_perm {A} (ltb : A -> A -> bool) l : Permutation (sort_desc ltb l) l.
+Proof.
+  induction l as [|y l IH]; cbn [sort_desc fold_right]; [apply Permutation_refl|].
+  fold (sort_desc ltb l). eapply Permutation_trans; [apply insert_desc_perm | now apply perm_skip].
+Qed.
+
+Lemma partition_perm {A} (f : A -> bool) l :
+  Permutation (filter f l ++ filter (fun x => negb (f x)) l) l.
+Proof.
+  induction l as [|a l IH]; cbn [filter]; [apply Permutation_refl|].
+  destruct (f a); cbn [negb app].
+  - now apply perm_skip.
+  - eapply Permutation_trans; [apply Permutation_sym, Permutation_middle | now apply perm_skip].
+Qed.
+
+(* since /repo cf1c479, for ALL lists of hosts: what sortHostsReverseHostPort returns is a
+   permutation of what it was given (before, the elements were the twice-reversed strings) *)
+Theorem sort_hosts_rhp_perm l : Permutation (sort_hosts_rhp l) l.
+Proof.
+  destruct l as [|a [|b l]]; [apply Permutation_refl | apply Permutation_refl |].
+  set (L := a :: b :: l).
+  change (sort_hosts_rhp L) with (partition_exact (sort_desc host_ltb L)).
+  eapply Permutation_trans; [apply partition_perm | apply sort_desc_perm].
+Qed.
 
 (* ------------------------------------------------------------------ *)
 (** * Table facts *)
@@ -185,7 +295,7 @@ Proof.
 Qed.
 
 Definition sorted_routes (rs : list route) : Prop :=
-  StronglySorted (kge (fun r : route => fst r)) rs.
+  StronglySorted (kge route_ltb) rs.
 Definition table_sorted (t : table) : Prop := Forall (fun e => sorted_routes (snd e)) t.
 
 Lemma assoc_sorted t k : table_sorted t -> sorted_routes (assoc t k).
@@ -198,7 +308,8 @@ Qed.
 Lemma new_table_sorted defs : table_sorted (new_table defs).
 Proof.
   unfold new_table, table_sorted. apply Forall_forall. intros e He.
-  apply in_map_iff in He as [e' [<- _]]. cbn [snd]. apply sort_desc_sorted.
+  apply in_map_iff in He as [e' [<- _]]. cbn [snd].
+  apply sort_desc_sorted; [apply route_ltb_asym | apply route_ltb_ge_trans].
 Qed.
 
 (* ------------------------------------------------------------------ *)
@@ -206,20 +317,17 @@ Qed.
 
 Definition rhp_stable (k : str) : Prop := reverse_host_port (reverse_host_port k) = k.
 Definition wf_keys (t : table) : Prop :=
-  Forall (fun k => lower k = k /\ rhp_stable k) (keys t).
+  Forall (fun k => lower k = k) (keys t).
 
-Lemma sort_hosts_rhp_in l h :
-  (forall k, In k l -> rhp_stable k) -> (In h (sort_hosts_rhp l) <-> In h l).
+Lemma partition_exact_in l h : In h (partition_exact l) <-> In h l.
 Proof.
-  intros Hst. destruct l as [|a [|b l]]; [reflexivity | reflexivity |].
-  set (L := a :: b :: l) in *.
-  change (sort_hosts_rhp L) with
-    (map reverse_host_port (sort_desc (fun x => x) (map reverse_host_port L))).
-  rewrite in_map_iff. split.
-  - intros [y [<- Hy]]. apply sort_desc_in in Hy. apply in_map_iff in Hy as [k [<- Hk]].
-    rewrite (Hst k Hk). exact Hk.
-  - intros Hh. exists (reverse_host_port h). split; [now apply Hst|].
-    apply sort_desc_in. now apply in_map.
+  unfold partition_exact. rewrite in_app_iff, !filter_In.
+  destruct (is_exact_host h); cbn [negb]; intuition congruence.
+Qed.
+
+Lemma sort_hosts_rhp_in l h : In h (sort_hosts_rhp l) <-> In h l.
+Proof.
+  split; apply Permutation_in; [apply sort_hosts_rhp_perm | apply Permutation_sym, sort_hosts_rhp_perm].
 Qed.
 
 (* keys without a colon are never altered by ReverseHostPort twice *)
@@ -341,7 +449,7 @@ Qed.
 Definition host_list (t : table) (host : str) (tls globoff : bool) : list str :=
   if globoff then matching_host_noglob t host tls else matching_hosts t host tls.
 
-Lemma wf_keys_in t k : wf_keys t -> In k (keys t) -> lower k = k /\ rhp_stable k.
+Lemma wf_keys_in t k : wf_keys t -> In k (keys t) -> lower k = k.
 Proof. unfold wf_keys. rewrite Forall_forall. auto. Qed.
 
 Lemma matching_hosts_in t host tls h :
@@ -349,9 +457,7 @@ Lemma matching_hosts_in t host tls h :
   (In h (matching_hosts t host tls) <->
    In h (keys t) /\ gobwas_match (normalize_host h tls) (normalize_host host tls) = true).
 Proof.
-  intros Hwf. unfold matching_hosts. fold (keys t). rewrite sort_hosts_rhp_in.
-  - rewrite filter_In. reflexivity.
-  - intros k Hk. apply filter_In in Hk as [Hk _]. now apply (wf_keys_in t k Hwf).
+  intros _. unfold matching_hosts. fold (keys t). rewrite sort_hosts_rhp_in, filter_In. reflexivity.
 Qed.
 
 Lemma matching_host_noglob_in t host tls h :
@@ -360,14 +466,24 @@ Lemma matching_host_noglob_in t host tls h :
    In h (keys t) /\ beq (normalize_host h tls) (normalize_host host tls) = true).
 Proof.
   intros Hwf. unfold matching_host_noglob. fold (keys t). rewrite sort_hosts_rhp_in.
-  - rewrite in_map_iff. split.
-    + intros [k [<- Hk]]. apply filter_In in Hk as [Hk Hm].
-      destruct (wf_keys_in t k Hwf Hk) as [-> _]. now split.
-    + intros [Hk Hm]. exists h. destruct (wf_keys_in t h Hwf Hk) as [Hl _].
-      split; [exact Hl|]. apply filter_In. now split.
-  - intros k Hk. apply in_map_iff in Hk as [k0 [<- Hk0]]. apply filter_In in Hk0 as [Hk0 _].
-    destruct (wf_keys_in t k0 Hwf Hk0) as [-> Hs]. exact Hs.
+  rewrite in_map_iff. split.
+  - intros [k [<- Hk]]. apply filter_In in Hk as [Hk Hm].
+    rewrite (wf_keys_in t k Hwf Hk). now split.
+  - intros [Hk Hm]. exists h. split; [exact (wf_keys_in t h Hwf Hk)|]. apply filter_In. now split.
 Qed.
+
+(* every host handed to the per-host lookup is a key of the table that matched: the host
+   list is a permutation of the matching keys (all tables, all requests; false before cf1c479,
+   see [colon_key_refuted]) *)
+Theorem matching_hosts_perm t host tls :
+  Permutation (matching_hosts t host tls)
+    (filter (fun k => gobwas_match (normalize_host k tls) (normalize_host host tls)) (keys t)).
+Proof. unfold matching_hosts. apply sort_hosts_rhp_perm. Qed.
+
+Theorem matching_host_noglob_perm t host tls :
+  Permutation (matching_host_noglob t host tls)
+    (map lower (filter (fun k => beq (normalize_host k tls) (normalize_host host tls)) (keys t))).
+Proof. unfold matching_host_noglob. apply sort_hosts_rhp_perm. Qed.
 
 (* ------------------------------------------------------------------ *)
 (** * lookup_sound *)
@@ -387,10 +503,10 @@ Proof.
   apply in_app_or in Hh as [Hh | [<- | []]].
   - unfold host_list in Hh. destruct globoff.
     + apply (matching_host_noglob_in t host tls h Hwf) in Hh as [Hkey Hb].
-      destruct (wf_keys_in t h Hwf Hkey) as [Hlow _]. rewrite Hlow in Hk. subst k.
+      pose proof (wf_keys_in t h Hwf Hkey) as Hlow. rewrite Hlow in Hk. subst k.
       apply orb_true_iff. right. unfold spec_host_match. exact Hb.
     + apply (matching_hosts_in t host tls h Hwf) in Hh as [Hkey Hb].
-      destruct (wf_keys_in t h Hwf Hkey) as [Hlow _]. rewrite Hlow in Hk. subst k.
+      pose proof (wf_keys_in t h Hwf Hkey) as Hlow. rewrite Hlow in Hk. subst k.
       apply orb_true_iff. right. unfold spec_host_match.
       now rewrite <- (no_dev_host _ _ _ _ _ _ _ Hdev eq_refl Hkey).
   - cbn in Hk. subst k. reflexivity.
@@ -409,7 +525,7 @@ Proof.
   rewrite <- (assoc_nodup t k rs Hnd Hin) in Hp.
   assert (Hkey : In k (keys t)).
   { unfold keys. apply in_map_iff. now exists (k, rs). }
-  destruct (wf_keys_in t k Hwf Hkey) as [Hlow _].
+  pose proof (wf_keys_in t k Hwf Hkey) as Hlow.
   unfold is_candidate in Hc. apply andb_true_iff in Hc as [Hh Hm].
   rewrite (no_dev_path _ _ _ _ _ _ _ _ _ Hdev Hall) in Hm.
   unfold lookup. fold (host_list t host tls globoff).
@@ -423,7 +539,43 @@ Proof.
 Qed.
 
 (* ------------------------------------------------------------------ *)
-(** * prefix_longest_wins *)
+(** * prefix_longest_wins / iprefix_longest_wins *)
+Lemma has_prefix_lower u p : has_prefix u p = true -> has_prefix (lower u) (lower p) = true.
+Proof.
+  intros H. apply has_prefix_spec in H as [r ->]. apply has_prefix_spec.
+  exists (lower r). apply lower_app.
+Qed.
+
+(* of two case-insensitive prefixes of the same string the shorter sorts after the longer *)
+Lemma longer_prefix_route_ltb u p p' id id' :
+  has_prefix (lower u) (lower p) = true -> has_prefix (lower u) (lower p') = true ->
+  (length p < length p')%nat -> route_ltb (p, id) (p', id') = true.
+Proof.
+  intros H1 H2 Hlen. unfold route_ltb. cbn [fst].
+  assert (Hl : (length (lower p) < length (lower p'))%nat) by (rewrite !lower_length; exact Hlen).
+  destruct (beq (lower p) (lower p')) eqn:E.
+  - apply beq_eq in E. rewrite E in Hl. lia.
+  - exact (prefix_shorter_lt _ _ _ H1 H2 Hl).
+Qed.
+
+Lemma lookup1_longest t h uri m k p id :
+  table_sorted t -> is_prefix_matcher m = true ->
+  lookup1 t h uri m = Some (k, p, id) ->
+  forall p' id', In (p', id') (assoc t k) -> path_match m uri p' = true ->
+                 (length p' <= length p)%nat.
+Proof.
+  intros Hs Hpm H1 p' id' Hin Hm. apply lookup1_some in H1 as [_ Hfind].
+  pose proof (find_sorted_max route_ltb route_ltb_irrefl _ _ _ (p', id')
+                (assoc_sorted t k Hs) Hfind Hin Hm) as Hge.
+  unfold kge in Hge.
+  apply find_some in Hfind as [_ Hp]. cbn [fst] in Hp.
+  destruct (Nat.leb (length p') (length p)) eqn:E; [now apply Nat.leb_le in E|].
+  apply Nat.leb_gt in E. destruct m; [| |discriminate]; cbn [path_match] in Hp, Hm.
+  - rewrite (longer_prefix_route_ltb uri p p' id id' (has_prefix_lower _ _ Hp)
+               (has_prefix_lower _ _ Hm) E) in Hge. discriminate.
+  - rewrite (longer_prefix_route_ltb uri p p' id id' Hp Hm E) in Hge. discriminate.
+Qed.
+
 Theorem prefix_longest_wins t host tls uri globoff k p id :
   table_sorted t ->
   lookup t host tls uri MPrefix globoff = Some (k, p, id) ->
@@ -431,37 +583,21 @@ Theorem prefix_longest_wins t host tls uri globoff k p id :
                  (length p' <= length p)%nat.
 Proof.
   intros Hs Hl p' id' Hin Hm. unfold lookup in Hl.
-  apply first_some_some in Hl as [h [_ H1]]. apply lookup1_some in H1 as [_ Hfind].
-  pose proof (find_sorted_max (fun r : route => fst r) _ _ _ (p', id')
-                (assoc_sorted t k Hs) Hfind Hin Hm) as Hge.
-  unfold kge in Hge. cbn [fst] in Hge.
-  apply find_some in Hfind as [_ Hp]. cbn [fst path_match] in Hp.
-  destruct (Nat.leb (length p') (length p)) eqn:E; [now apply Nat.leb_le in E|].
-  apply Nat.leb_gt in E.
-  rewrite (prefix_shorter_lt p uri p' Hp Hm E) in Hge. discriminate.
+  apply first_some_some in Hl as [h [_ H1]].
+  exact (lookup1_longest t h uri MPrefix k p id Hs eq_refl H1 p' id' Hin Hm).
 Qed.
 
-(* the same for iprefix when no route path has an upper-case letter (outside region 2) *)
-Theorem iprefix_longest_wins_on_domain t host tls uri globoff k p id :
-  table_sorted t -> F_C03_iprefix_case MIPrefix t = false ->
+(* since /repo c1f03c0 the same holds for iprefix, for all tables (no condition on the
+   letter case of route paths) *)
+Theorem iprefix_longest_wins t host tls uri globoff k p id :
+  table_sorted t ->
   lookup t host tls uri MIPrefix globoff = Some (k, p, id) ->
   forall p' id', In (p', id') (assoc t k) -> has_prefix (lower uri) (lower p') = true ->
                  (length p' <= length p)%nat.
 Proof.
-  intros Hs Hreg Hl p' id' Hin Hm. unfold lookup in Hl.
-  apply first_some_some in Hl as [h [_ H1]]. apply lookup1_some in H1 as [_ Hfind].
-  pose proof (find_sorted_max (fun r : route => fst r) _ _ _ (p', id')
-                (assoc_sorted t k Hs) Hfind Hin Hm) as Hge.
-  unfold kge in Hge. cbn [fst] in Hge.
-  apply find_some in Hfind as [Hinp Hp]. cbn [fst path_match] in Hp.
-  cbn [F_C03_iprefix_case] in Hreg.
-  pose proof (existsb_false _ _ _ Hreg (assoc_in_all _ _ _ _ Hinp)) as U1.
-  pose proof (existsb_false _ _ _ Hreg (assoc_in_all _ _ _ _ Hin)) as U2.
-  cbn [fst snd] in U1, U2.
-  rewrite (lower_no_upper _ U1) in Hp. rewrite (lower_no_upper _ U2) in Hm.
-  destruct (Nat.leb (length p') (length p)) eqn:E; [now apply Nat.leb_le in E|].
-  apply Nat.leb_gt in E.
-  rewrite (prefix_shorter_lt p (lower uri) p' Hp Hm E) in Hge. discriminate.
+  intros Hs Hl p' id' Hin Hm. unfold lookup in Hl.
+  apply first_some_some in Hl as [h [_ H1]].
+  exact (lookup1_longest t h uri MIPrefix k p id Hs eq_refl H1 p' id' Hin Hm).
 Qed.
 
 (* ------------------------------------------------------------------ *)
@@ -487,36 +623,89 @@ Theorem noglob_upper_host_refuted :
   /\ lookup t (bs "FOO.com") false (bs "/") MPrefix true = Some (bs "foo.com", bs "/", 0).
 Proof. vm_compute. repeat split; reflexivity. Qed.
 
-(* F-C03-2: iprefix: /fo is selected although the longer /Foo matches too *)
+(* F-C03-2 (REPAIRED in /repo by c1f03c0; about the route order before the repair,
+   [new_table_unrepaired] = raw byte order): iprefix: /fo was selected although the longer
+   /Foo matches too.  With the current order [new_table] the longer /Foo is selected. *)
 Theorem iprefix_longest_refuted :
   let defs := [([], bs "/fo", 0); ([], bs "/Foo", 1)] in
-  ex_refuted defs (bs "foo.com") false (bs "/foo/bar") MIPrefix false (Some ([], bs "/fo", 0))
-  /\ F_C03_iprefix_case MIPrefix (new_table defs) = true
-  /\ In ([], bs "/Foo", 1) (candidates (new_table defs) false false MIPrefix (bs "foo.com") (bs "/foo/bar")).
-Proof. vm_compute. repeat split; try reflexivity. right. now left. Qed.
+  let told := new_table_unrepaired defs in
+  let t := new_table defs in
+  lookup told (bs "foo.com") false (bs "/foo/bar") MIPrefix false = Some ([], bs "/fo", 0)
+  /\ spec_b told false false MIPrefix (bs "foo.com") (bs "/foo/bar") (Some ([], bs "/fo", 0)) = false
+  /\ F_C03_iprefix_case MIPrefix told = true
+  /\ lookup t (bs "foo.com") false (bs "/foo/bar") MIPrefix false = Some ([], bs "/Foo", 1)
+  /\ spec_b t false false MIPrefix (bs "foo.com") (bs "/foo/bar") (Some ([], bs "/Foo", 1)) = true.
+Proof. vm_compute. repeat split; reflexivity. Qed.
 
-(* F-C03-3: the pattern ?.foo.com is tried before the exact host 1.foo.com *)
+(* F-C03-3, the part REPAIRED in /repo by bc98e3c (about the host order before the repair,
+   [lookup_glob_unrepaired]): the pattern ?.foo.com was tried before the exact host
+   1.foo.com.  The current [lookup] selects the exact host. *)
 Theorem metachar_order_refuted :
   let defs := [(bs "?.foo.com", bs "/", 0); (bs "1.foo.com", bs "/", 1)] in
-  ex_refuted defs (bs "1.foo.com") false (bs "/") MPrefix false (Some (bs "?.foo.com", bs "/", 0))
-  /\ F_C03_metachar_order false (new_table defs) = true.
+  let t := new_table defs in
+  lookup_glob_unrepaired t (bs "1.foo.com") false (bs "/") MPrefix = Some (bs "?.foo.com", bs "/", 0)
+  /\ spec_b t false false MPrefix (bs "1.foo.com") (bs "/") (Some (bs "?.foo.com", bs "/", 0)) = false
+  /\ F_C03_metachar_order_unrepaired false t = true
+  /\ lookup t (bs "1.foo.com") false (bs "/") MPrefix false = Some (bs "1.foo.com", bs "/", 1)
+  /\ spec_b t false false MPrefix (bs "1.foo.com") (bs "/") (Some (bs "1.foo.com", bs "/", 1)) = true.
 Proof. vm_compute. repeat split; reflexivity. Qed.
 
-(* F-C03-4: *foo.com is tried before the exact host foo.com for request foo.com *)
+(* F-C03-3, what is LEFT after bc98e3c (current code): among patterns, ?.foo.com (literal
+   host suffix ".foo.com") is tried before *1.foo.com (longer suffix "1.foo.com")
+   because '?' sorts above '1' *)
+Theorem metachar_among_patterns_refuted :
+  let defs := [(bs "?.foo.com", bs "/", 0); (bs "*1.foo.com", bs "/", 1)] in
+  ex_refuted defs (bs "1.foo.com") false (bs "/") MPrefix false (Some (bs "?.foo.com", bs "/", 0))
+  /\ F_C03_metachar_order false false (new_table defs) (bs "1.foo.com") = true
+  /\ region (new_table defs) false false MPrefix (bs "1.foo.com") (bs "/") = Some 3.
+Proof. vm_compute. repeat split; reflexivity. Qed.
+
+(* F-C03-4 (REPAIRED in /repo by bc98e3c; about the host order before the repair): *foo.com
+   was tried before the exact host foo.com for request foo.com.  The current [lookup]
+   selects the exact host. *)
 Theorem empty_star_beats_exact_refuted :
   let defs := [(bs "*foo.com", bs "/", 0); (bs "foo.com", bs "/", 1)] in
-  ex_refuted defs (bs "foo.com") false (bs "/") MPrefix false (Some (bs "*foo.com", bs "/", 0))
-  /\ F_C03_empty_star false false (new_table defs) (bs "foo.com") = true.
+  let t := new_table defs in
+  lookup_glob_unrepaired t (bs "foo.com") false (bs "/") MPrefix = Some (bs "*foo.com", bs "/", 0)
+  /\ spec_b t false false MPrefix (bs "foo.com") (bs "/") (Some (bs "*foo.com", bs "/", 0)) = false
+  /\ F_C03_empty_star false false t (bs "foo.com") = true
+  /\ lookup t (bs "foo.com") false (bs "/") MPrefix false = Some (bs "foo.com", bs "/", 1)
+  /\ spec_b t false false MPrefix (bs "foo.com") (bs "/") (Some (bs "foo.com", bs "/", 1)) = true.
 Proof. vm_compute. repeat split; reflexivity. Qed.
 
-(* F-C03-5: the key "foo.com:" matches host "foo.com:" but is rewritten to "foo.com"
-   by the two applications of ReverseHostPort; the route of a key whose pattern does
-   NOT match the host is selected *)
+(* F-C03-7 (introduced by /repo bc98e3c, REPAIRED by its follow-up 1814501; about the
+   intermediate host order [lookup_glob_bc98e3c]): with an empty normalised host the key ""
+   of the host-less routes matched, counted as exact and was moved in front of the pattern
+   "*": the host-less route was used although a host-specific route matches.  The current
+   [lookup] (the empty key is not an exact host) selects the route of "*". *)
+Theorem empty_host_hostless_first_refuted :
+  let defs := [([], bs "/", 0); (bs "*", bs "/", 1)] in
+  let t := new_table defs in
+  lookup_glob_bc98e3c t [] false (bs "/") MPrefix = Some ([], bs "/", 0)
+  /\ spec_b t false false MPrefix [] (bs "/") (Some ([], bs "/", 0)) = false
+  /\ F_C03_empty_host false t [] = true
+  /\ beats false false MPrefix (bs "*", bs "/", 1) ([], bs "/", 0) = true
+  /\ lookup t [] false (bs "/") MPrefix false = Some (bs "*", bs "/", 1)
+  /\ spec_b t false false MPrefix [] (bs "/") (Some (bs "*", bs "/", 1)) = true.
+Proof. vm_compute. repeat split; reflexivity. Qed.
+
+(* F-C03-5 (REPAIRED in /repo by cf1c479; about the host sort before the repair,
+   [lookup_glob_double_unrepaired]): the key "foo.com:" matches host "foo.com:" but was
+   rewritten to "foo.com" by the two applications of ReverseHostPort: a string that is not
+   among the matching keys was handed to the per-host lookup and the route of a key whose
+   pattern does NOT match the host was selected.  The current [lookup] keeps the keys as
+   they are and selects the route of "foo.com:". *)
 Theorem colon_key_refuted :
   let defs := [(bs "foo.com:", bs "/", 0); (bs "foo.com", bs "/", 1); (bs "*", bs "/", 2)] in
-  ex_refuted defs (bs "foo.com:") false (bs "/") MPrefix false (Some (bs "foo.com", bs "/", 1))
-  /\ F_C03_colon_key (new_table defs) = true
-  /\ is_candidate false false MPrefix (bs "foo.com:") (bs "/") (bs "foo.com", bs "/", 1) = false.
+  let t := new_table defs in
+  lookup_glob_double_unrepaired t (bs "foo.com:") false (bs "/") MPrefix = Some (bs "foo.com", bs "/", 1)
+  /\ spec_b t false false MPrefix (bs "foo.com:") (bs "/") (Some (bs "foo.com", bs "/", 1)) = false
+  /\ F_C03_colon_key t = true
+  /\ is_candidate false false MPrefix (bs "foo.com:") (bs "/") (bs "foo.com", bs "/", 1) = false
+  /\ matching_hosts_double_unrepaired t (bs "foo.com:") false = [bs "foo.com"; bs "*"]
+  /\ matching_hosts t (bs "foo.com:") false = [bs "foo.com:"; bs "*"]
+  /\ lookup t (bs "foo.com:") false (bs "/") MPrefix false = Some (bs "foo.com:", bs "/", 0)
+  /\ spec_b t false false MPrefix (bs "foo.com:") (bs "/") (Some (bs "foo.com:", bs "/", 0)) = true.
 Proof. vm_compute. repeat split; reflexivity. Qed.
 
 (* F-C03-6: gobwas/glob matches b.*.com on b.com (prefix "b." and suffix ".com" overlap) *)
@@ -536,7 +725,7 @@ Definition ex_defs : list def :=
 
 Lemma ex_wf_keys : wf_keys (new_table ex_defs).
 Proof.
-  unfold wf_keys. vm_compute keys. repeat constructor; vm_compute; reflexivity.
+  unfold wf_keys. vm_compute keys. repeat constructor.
 Qed.
 
 Theorem lookup_nonvacuous :
